@@ -93,9 +93,13 @@ a_real a_mf_tri(a_real x, a_real a, a_real b, a_real c)
         {
             x = (c - x) / (c - b);
         }
-        else /* c <= x */
+        else if (x > b) /* c <= x */
         {
             x = 0;
+        }
+        else /* x == b == c */
+        {
+            x = 1;
         }
     }
     return x;
@@ -107,11 +111,11 @@ a_real a_mf_lins(a_real x, a_real a, a_real b)
     {
         x = 0;
     }
-    else if (x > b)
+    else if (x >= b)
     {
         x = 1;
     }
-    else /* a <= x <= b */
+    else /* a <= x < b */
     {
         x = (x - a) / (b - a);
     }
@@ -120,7 +124,7 @@ a_real a_mf_lins(a_real x, a_real a, a_real b)
 
 a_real a_mf_linz(a_real x, a_real a, a_real b)
 {
-    if (x < a)
+    if (x <= a)
     {
         x = 1;
     }
@@ -128,7 +132,7 @@ a_real a_mf_linz(a_real x, a_real a, a_real b)
     {
         x = 0;
     }
-    else /* a <= x <= b */
+    else /* a < x <= b */
     {
         x = (b - x) / (b - a);
     }
